@@ -3,6 +3,10 @@ CONSTANTS
   Relax = {}
   Mode = "revoked"
   MaxBlocks = 3
+  Layouts = {"plain"}
+  MaxUnwind = 0
+  Features = {}
+  Defect = "none"
   MaxReload = 1
 CONSTRAINT Bounded
 VIEW View
